@@ -69,6 +69,10 @@ def _kind(expr, where, before=""):
     for pats, k in ((STR_PATTERNS, STR), (CHR_PATTERNS, CHR), (REAL_PATTERNS, REAL), (INT_PATTERNS, INT)):
         if any(re.search(p, e) for p in pats):
             return k
+    # a (nested) conditional all of whose results are string literals
+    if re.fullmatch(r'[()\s\w=!<>?:]*"(?:[^"\\]|\\.)*"(?:[()\s\w=!<>?:]*"(?:[^"\\]|\\.)*")*[()\s]*', e) and "?" in e and \
+       all(re.fullmatch(r'\s*"(?:[^"\\]|\\.)*"\s*', t) or '"' not in t for t in re.split(r"[?:()]", e)):
+        return STR
     if re.fullmatch(r"\w+", e):
         k = _decl_kind(e, before)
         if k is not None:
